@@ -75,7 +75,10 @@ def gen_case(rng):
     ktext += "end K;\n\n"
     # leaf component class
     ncon = rng.randint(1, 3)
-    lcons = ["p", "n", "q"][:ncon]
+    # some naming schemes put connector names into a proper string-prefix relation (p / p2, port / port_b, c / c0)
+    lcons = rng.choice([["p", "n", "q"], ["p", "p2", "pn"], ["t1", "t", "t12"]])[:ncon]
+    if lcons[0] != "p" or "p2" in lcons:
+        tags.add("names:connector-name-is-prefix-of-another")
     ltext = "model L\n" + "".join("  K %s;\n" % c for c in lcons) + "end L;\n\n"
     # sub-model with inner connections
     use_sub = rng.random() < 0.45
@@ -104,7 +107,9 @@ def gen_case(rng):
         else:
             comps.append(("c%d" % i, "L"))
     nports = rng.randint(0, 2)
-    ports = ["port%d" % i for i in range(nports)]
+    ports = rng.choice([["port0", "port1"], ["port", "port_b"], ["c", "s"]])[:nports]
+    if ports and not ports[0].endswith("0"):
+        tags.add("names:port-name-is-prefix-of-another-name")
     if ports:
         tags.add("outside-connector")
     refs = []
